@@ -96,8 +96,19 @@ class RecCtl(ctl_sched.Ctl):
             sched.done_job(job, result)
 
 
+def clone(expr):
+    """Fresh expression objects for one run.  Expression objects carry per-run bookkeeping (`call_hash`, `_upstreams`);
+    redun itself re-pickles an expression before handing it to another scheduler (see `_subrun_root_task`), and so do we
+    before every run on a fresh backend: a `call_hash` left over from a run on a *different* database would otherwise be
+    recorded as an upstream of a new call node (FOREIGN KEY failure) — an artefact of the harness, not of the property."""
+    from redun.utils import pickle_dumps, pickle_loads
+    return pickle_loads(pickle_dumps(expr))
+
+
 def run_ctl(expr, seed, sched=None, ctl=None, **kw):
     """-> (canonical outcome, ctl, scheduler)"""
+    if sched is None:
+        expr = clone(expr)
     if ctl is None:
         ctl = RecCtl(rng=random.Random(seed))
     if sched is None:
@@ -128,6 +139,7 @@ def run_free(expr, sched=None, timeout=60, **kw):
     """free-running run on real executors -> canonical outcome"""
     if sched is None:
         sched = free_scheduler()
+        expr = clone(expr)
     try:
         with with_timeout(timeout):
             try:
